@@ -1,7 +1,7 @@
 (* Property C08: the timeout bounds the run: at expiry everything is cancelled and the run fails.
    Only property theorems here. Model R; level 0 unless stated. *)
 From AJ Require Import Common.Util Run.RModel Run.RFacts Run.RFacts2 Run.RInv Run.RInv4 Run.RInv5 Run.RMon Run.RProps1
-  Run.RProps2 Run.RProps3 Props.RExample Run.RWin Run.RProps4 Run.RShut1 Run.RShut2 Run.RTime Run.RProps5 Run.RUntime.
+  Run.RProps2 Run.RProps3 Props.RExample Run.RWin Run.RProps4 Run.RShut1 Run.RShut2 Run.RTime Run.RProps5 Run.RUntime Run.RSchedDef Run.RFlatten Run.RSolve Run.RSched Run.RSchedTop.
 
 (* a main wake that reports nothing is an expiry: it takes the timeout path *)
 Theorem C08_expiry_path : forall c n s, ph (Rn s n) = PMain ->
@@ -95,6 +95,36 @@ Theorem C08_untimed_iff_partial : forall n lvl c h, 2 <= lvl -> wf c = true -> c
   accept lvl (untime_cfg n c) (map (untime_ev n) h) = accept lvl c h.
 Proof. exact untime_accept_iff_partial. Qed.
 Print Assumptions C08_untimed_iff_partial.
+
+(* second sentence of the property in closed form, as a statement about trees rather than about
+   executions: in a tree without window or forever job (timeouts anywhere, any nesting depth) whose
+   computed schedule leaves every timed scheduler n some slack (Eof c n < Sof c n + T: its jobs
+   finish strictly before T, counted from the beginning of n's own run), every execution follows the
+   schedule of the same tree without its timeouts -- [Sof], [Eof] do not depend on them -- no run
+   ever enters a timeout phase, and the deadline armed by n is Sof c n + T: measured from n's own
+   beginning, also when nested.  (Until a critical job raises: [calm].) *)
+Theorem C08_unreached_timeouts_have_no_effect : forall c h s, wf c = true -> plainT c = true ->
+  slack_ok c = true -> Reach 3 c h s -> calm c (Eof c) s ->
+  (forall x, x < njobs c -> x <> 0 -> on_schedule c (Sof c) (Eof c) s x) /\
+  (forall n, n < njobs c -> j_sched (jc c n) = true ->
+     okph (ph (Rn s n)) /\
+     (ph (Rn s n) = PMain -> forall T, j_timeout (jc c n) = Some T ->
+        expi (Rn s n) = Some (Sof c n + T)%N /\ (now s <= Eof c n)%N /\ (Eof c n < Sof c n + T)%N)).
+Proof. exact unreached_timeouts_have_no_effect. Qed.
+Print Assumptions C08_unreached_timeouts_have_no_effect.
+
+Theorem C08_runs_on_schedule_timeouts : forall c S E h s, wf c = true -> plainT c = true ->
+  is_schedule c S E -> slack c S E -> Reach 3 c h s -> calm c E s ->
+  forall x, x < njobs c -> x <> 0 -> on_schedule c S E s x.
+Proof. exact runs_on_schedule_timeouts. Qed.
+Print Assumptions C08_runs_on_schedule_timeouts.
+
+(* non-vacuity: the three-level tree of RSched.ExampleT has timeouts 7/5/2 on its three schedulers,
+   all with slack; its full history is accepted at level 3 *)
+Example C08_slack_nonvacuous :
+  plain RSched.ExampleT.ex_c = false /\ plainT RSched.ExampleT.ex_c = true /\ wf RSched.ExampleT.ex_c = true /\
+  slack_ok RSched.ExampleT.ex_c = true /\ accept 3 RSched.ExampleT.ex_c RSched.ExampleT.ex_h = true.
+Proof. repeat split; vm_compute; reflexivity. Qed.
 
 Example C08_nonvacuous :
   accept 3 ex_cfg ex_hist = true /\ j_timeout (jc ex_cfg 3) = Some 3%N /\
